@@ -272,8 +272,10 @@ func checkConc(c *ConcCase) *Outcome {
 	}
 	for i := range c.Rejected {
 		rejectAlone[i] = runReject(i, 0)
-		if again := runReject(i, 2); again != rejectAlone[i] && strings.HasPrefix(again, "error") && strings.HasPrefix(rejectAlone[i], "error") {
-			rejectAlone[i] = "" // the two back ends word this refusal differently: not compared
+		for _, engine := range []int{2, 0, 2} {
+			if again := runReject(i, engine); again != rejectAlone[i] && strings.HasPrefix(again, "error") && strings.HasPrefix(rejectAlone[i], "error") {
+				rejectAlone[i] = "" // the refusal is worded differently from one time to the next even alone (or between the two back ends): not compared
+			}
 		}
 	}
 	// ---- the shared engine has finished its first compilation; shared callables exist
